@@ -36,6 +36,10 @@ pub struct ProbeCase {
     /// upper half of the low 4 GiB (bit 31 set), or, if `low` is false, anywhere in the low 4 GiB
     #[serde(default)]
     pub fake_thunk: Option<(u32, u16, bool)>,
+    /// installations made on the same function through the same injector before the one under
+    /// test (e.g. forced boolean, then the recorder fake, then the forced boolean under test)
+    #[serde(default)]
+    pub prior: Vec<ProbeMode>,
 }
 
 #[derive(Serialize, Deserialize, Clone, Debug, Default)]
@@ -44,6 +48,14 @@ pub struct ProbeObs {
     pub why: String,
     pub target: u64,
     pub long_form: bool,
+    #[serde(default)]
+    pub tramp_addr: Option<u64>,
+    #[serde(default)]
+    pub set_r10: u64,
+    #[serde(default)]
+    pub seen_r10: u64,
+    #[serde(default)]
+    pub seen_rflags: u64,
     pub fake_hits: u64,
     pub seen_args: Vec<u64>,
     pub seen_callee: Vec<u64>,
@@ -127,15 +139,19 @@ pub fn execute(c: &ProbeCase) -> ProbeObs {
     let r = std::panic::catch_unwind(std::panic::AssertUnwindSafe(|| {
         ip::sut(|| {
             let mut inj = InjectorPP::new();
+            // one signature for the whole history: a bool-returning one as soon as a forced
+            // boolean takes part
+            let any_bool = c.prior.iter().chain(std::iter::once(&c.mode)).any(|m| matches!(m, ProbeMode::Bool(_)));
+            let sig = if any_bool { BOOL_SIGS[c.sig as usize % BOOL_SIGS.len()] } else { FAKE_SIGS[c.sig as usize % FAKE_SIGS.len()] };
             unsafe {
-                match c.mode {
-                    ProbeMode::Fake => {
-                        let sig = FAKE_SIGS[c.sig as usize % FAKE_SIGS.len()];
-                        inj.when_called(FuncPtr::new(target as *const (), sig)).will_execute_raw(FuncPtr::new(fake_ptr as *const (), sig));
-                    }
-                    ProbeMode::Bool(v) => {
-                        let sig = BOOL_SIGS[c.sig as usize % BOOL_SIGS.len()];
-                        inj.when_called(FuncPtr::new(target as *const (), sig)).will_return_boolean(v);
+                for m in c.prior.iter().take(3).chain(std::iter::once(&c.mode)) {
+                    match m {
+                        ProbeMode::Fake => {
+                            inj.when_called(FuncPtr::new(target as *const (), sig)).will_execute_raw(FuncPtr::new(fake_ptr as *const (), sig));
+                        }
+                        ProbeMode::Bool(v) => {
+                            inj.when_called(FuncPtr::new(target as *const (), sig)).will_return_boolean(*v);
+                        }
                     }
                 }
             }
@@ -157,10 +173,14 @@ pub fn execute(c: &ProbeCase) -> ProbeObs {
             let b = crate::mem::read_direct(e.ret as usize, 16);
             if b.iter().any(|x| *x != 0) {
                 o.tramp_bytes = b;
+                o.tramp_addr = Some(e.ret);
             }
         }
     }
-    o.long_form = o.tramp_bytes.starts_with(&[0x48, 0xB8]);
+    // "long" = the fake is out of rel32 reach of the trampoline (whatever instruction sequence the
+    // library chooses for that), or the well-known absolute form is seen
+    let out_of_reach = o.tramp_addr.map(|t| { let d = (fake_ptr as i128) - (t as i128 + 5); d < i32::MIN as i128 || d > i32::MAX as i128 }).unwrap_or(false);
+    o.long_form = o.tramp_bytes.starts_with(&[0x48, 0xB8]) || out_of_reach;
     crate::worker::phase("call");
     unsafe { probe_call(&mut *ctx as *mut Ctx) };
     crate::worker::phase("drop");
@@ -170,6 +190,9 @@ pub fn execute(c: &ProbeCase) -> ProbeObs {
     o.seen_args = rec.args.to_vec();
     o.seen_callee = rec.callee.to_vec();
     o.seen_rsp = rec.rsp;
+    o.set_r10 = ctx.r10;
+    o.seen_r10 = rec.r10;
+    o.seen_rflags = rec.rflags;
     o.seen_ret_addr = rec.ret_addr;
     o.seen_stack = rec.stack.to_vec();
     o.seen_xmm = rec.xmm.iter().map(|x| (x[0], x[1])).collect();
@@ -191,7 +214,14 @@ pub fn strategy(modes: Vec<ProbeMode>) -> impl Strategy<Value = ProbeCase> {
         1 => (0u8..2).prop_map(ProbePlace::Text),
         1 => (0u8..5, any::<u64>(), prop_oneof![3 => 0u16..0x1000, 1 => 0xFF0u16..=0xFFF]).prop_map(|(class, page, off)| ProbePlace::Arena { class, page, off }),
     ];
-    (place, proptest::sample::select(modes), regfile(), any::<u8>(), prop::option::weighted(0.4, (any::<u32>(), 0u16..0x1000, prop::bool::weighted(0.6)))).prop_map(|(place, mode, regs, sig, fake_thunk)| ProbeCase { place, mode, regs, sig, fake_thunk })
+    let any_mode = prop_oneof![Just(ProbeMode::Fake), Just(ProbeMode::Bool(true)), Just(ProbeMode::Bool(false))];
+    let prior = prop_oneof![
+        6 => Just(vec![]),
+        2 => prop::collection::vec(any_mode, 1..=2),
+        1 => any::<bool>().prop_map(|v| vec![ProbeMode::Bool(v), ProbeMode::Fake]),
+        1 => any::<bool>().prop_map(|v| vec![ProbeMode::Fake, ProbeMode::Bool(v)]),
+    ];
+    (place, proptest::sample::select(modes), regfile(), any::<u8>(), prop::option::weighted(0.4, (any::<u32>(), 0u16..0x1000, prop::bool::weighted(0.6))), prior).prop_map(|(place, mode, regs, sig, fake_thunk, prior)| ProbeCase { place, mode, regs, sig, fake_thunk, prior })
 }
 
 pub fn judge(rec: &mut Recorder, c: &ProbeCase, ex: Exec, _hello: &Value) -> Result<(), String> {
@@ -238,6 +268,9 @@ pub fn judge(rec: &mut Recorder, c: &ProbeCase, ex: Exec, _hello: &Value) -> Res
     match c.mode {
         ProbeMode::Fake => {
             rec.class(if o.long_form { "fake/long-trampoline" } else { "fake/short-trampoline" });
+            if !c.prior.is_empty() {
+                rec.class("fake-after-earlier-installations");
+            }
             if let Some((_, _, high)) = c.fake_thunk {
                 rec.class(if high { "fake-via-thunk/bit31-set" } else { "fake-via-thunk/low-4GiB" });
             }
@@ -274,8 +307,14 @@ pub fn judge(rec: &mut Recorder, c: &ProbeCase, ex: Exec, _hello: &Value) -> Res
         }
         ProbeMode::Bool(v) => {
             rec.class(&format!("bool={v}/{}", match c.place { ProbePlace::Text(_) => "text", _ => "arena" }));
+            if !c.prior.is_empty() {
+                rec.class(&format!("bool-after/{}", c.prior.iter().map(|m| match m { ProbeMode::Fake => "fake".to_string(), ProbeMode::Bool(b) => format!("bool={b}") }).collect::<Vec<_>>().join(",")));
+            }
             if o.out_rax & 0xFF != v as u64 {
                 return rec.fail(&sig("boolean-wrong-value"), format!("al={:#x} after the call, requested {v}; case {c:?}", o.out_rax & 0xFF));
+            }
+            if o.fake_hits != 0 {
+                return rec.fail(&sig("superseded-fake-ran"), format!("a fake installed before the forced boolean ran {} time(s) although the forced boolean is the most recent installation (earlier installations {:?}); case {c:?}", o.fake_hits, c.prior));
             }
             if o.orig_hits != 0 || o.out_rax as u32 == ORIG_MARK {
                 return rec.fail(&sig("original-body-ran"), format!("the original body ran (hits {}, rax {:#x})", o.orig_hits, o.out_rax));
